@@ -214,11 +214,12 @@ func deriveOverwritePrograms(rng *kc.Rng, q *big.Int, src func(i int) []byte, wi
 			p.stmts = append(p.stmts, o...)
 			// ... and whatever was overwritten is then used again as an operand (a value that remembers something
 			// about its previous contents - a cached table, a lazily normalised form - shows up here)
-			uses := func(x string) []stmt {
-				return []stmt{{dst: "p4", op: "mul", args: []string{"s1", x}}, {dst: "p5", op: "add", args: []string{x, "p2"}},
-					{dst: "p6", op: "sub", args: []string{"p2", x}}, {dst: "p7", op: "neg", args: []string{x}}, {dst: "p8", op: "mul", args: []string{"s0", x}}}
+			uses := func(x string, at int) []stmt {
+				d := func(i int) string { return fmt.Sprintf("p%d", at+i) }
+				return []stmt{{dst: d(0), op: "mul", args: []string{"s1", x}}, {dst: d(1), op: "add", args: []string{x, "p2"}},
+					{dst: d(2), op: "sub", args: []string{"p2", x}}, {dst: d(3), op: "neg", args: []string{x}}, {dst: d(4), op: "mul", args: []string{"s0", x}}}
 			}
-			p.stmts = append(p.stmts, uses("p1")...)
+			p.stmts = append(p.stmts, uses("p1", 4)...)
 			// and the mirror image: overwrite the source, the derived value must not change
 			out = append(out, p)
 			var m prog
@@ -235,8 +236,8 @@ func deriveOverwritePrograms(rng *kc.Rng, q *big.Int, src func(i int) []byte, wi
 				}
 				m.stmts = append(m.stmts, st2)
 			}
-			m.stmts = append(m.stmts, uses("p0")...)
-			m.stmts = append(m.stmts, uses("p1")...)
+			m.stmts = append(m.stmts, uses("p0", 4)...)
+			m.stmts = append(m.stmts, uses("p1", 9)...)
 			out = append(out, m)
 		}
 	}
